@@ -19,4 +19,9 @@ META = {
   "text": "Each generated case runs the real output pipeline (parser, batcher, sender, checkpoint writer) over TCP against a recording double and compares the complete ordered target log with an independent interpretation of the stream. Exploration level: the space of streams x schedules is unbounded; arrival timing is generated but the Go scheduler is not owned.",
   "note": "Trusts the double's request log and the reference stream model (removal rules transcribed from the documentation/filter list). A sentinel not executed within 30 s is inconclusive (exit 2), never a violation.",
  },
+ "C02": {
+  "technique": "property-based testing (rapid) + exhaustive fault enumeration per case: every target-request crash point and every graceful-stop instant, then restart; oracle = reference stream model over the concatenated run logs (no gap, right DB, exactly-once in transactional mode)",
+  "text": "The random part picks stream, configuration and schedule; the fault dimension (which request was the last one the target executed) is enumerated completely for that case, in both 'target crash' and 'tool stop' flavours, and every resulting two- or three-life history is judged against the reference sequence. Fault enumeration is the right level: crash points are finite per case and each is cheap.",
+  "note": "Trusts the double's crash model (prefix of requests executed, open MULTI discarded) and the restart procedure transcribed from syncer.newOutput / RedisInput (UpdateCheckpoint, StartPoint, serve from the returned offset; 'none' = serve from the stream start, accepted only outside transactional mode).",
+ },
 }
